@@ -1,4 +1,5 @@
 """C18 — symbolized callables keep Python call semantics (differential against the interpreter)."""
+import copy
 import inspect
 import itertools
 
@@ -62,7 +63,8 @@ def _check_sig(sig):
 
 
 def _default(name):
-  return {'a': 10, 'b': 20, 'c': 30, 'k1': 40, 'k2': 50}[name]
+  # (the default of `c` is a container: a write inside it binds the argument)
+  return copy.deepcopy({'a': 10, 'b': 20, 'c': {'x': 30}, 'k1': 40, 'k2': 50}[name])
 
 
 def materialise(sig, kind=''):
@@ -224,7 +226,8 @@ def strategy(tier):
     args = st.one_of(st.lists(VALUES, max_size=max_args), st.lists(VALUES, max_size=max_args),
                      st.lists(VALUES, max_size=max_args), st.lists(VALUES, max_size=max_args + 1))
     late_names = own + (EXTRA if sg['varkw'] else []) or ['a']
-    nested = [n + '[0]' for n in ('a', 'k1') if n in own] + (['b.x'] if 'b' in own else []) + (['rest[0]'] if sg['var'] else [])
+    nested = [n + '[0]' for n in ('a', 'k1') if n in own] + (['b.x'] if 'b' in own else []) + (['rest[0]'] if sg['var'] else []) + (
+        ['c.x', 'c.x'] if 'c' in own else [])
     late = st.one_of(
         st.fixed_dictionaries({'how': st.sampled_from(['rebind', 'setattr', 'del', 'del']), 'name': st.sampled_from(late_names), 'v': VALUES}),
         st.fixed_dictionaries({'how': st.just('rebind_rest'), 'v': st.lists(st.integers(0, 3), max_size=2)}),
@@ -503,6 +506,16 @@ def execute(case):
           cur = dict(cur)
           cur['x'] = v
           new_spec['b'] = cur
+          upd[k] = v
+        elif k == 'c.x':
+          # a write inside the value of `c`: its bound value, or its (so far unspecified) container default
+          cur = new_spec.get('c', _default('c') if 'c' in model.named and model.has_default('c') else None)
+          if 'c' not in model.named or not isinstance(cur, dict) or 'x' not in cur or 'c' in upd or not is_fn:
+            ok = False
+            break
+          cur = dict(cur)
+          cur['x'] = v
+          new_spec['c'] = cur
           upd[k] = v
         elif k == 'rest[0]':
           if not model.var or not new_rest:
